@@ -890,6 +890,8 @@ impl<'data, P: Platform> SymbolRequestHandler<'data, P> for ObjectLayoutState<'d
             .object
             .symbol_section(local_symbol, object_symbol_index)?
         {
+            #[cfg(wild_verif)]
+            crate::verif_ev!("SendLocal", "\"g\":{},\"kind\":\"sec\"", queue.index);
             queue
                 .local_work
                 .push(WorkItem::LoadSection(SectionLoadRequest::new(
@@ -1297,6 +1299,18 @@ enum WorkItem {
     /// Requests that the specified symbol be exported as a dynamic symbol. Will be ignored if the
     /// object that defines the symbol is not loaded or is itself a shared object.
     ExportDynamic(SymbolId),
+}
+
+#[cfg(wild_verif)]
+impl WorkItem {
+    fn verif_kind(&self) -> &'static str {
+        match self {
+            WorkItem::LoadGlobalSymbol(_) => "sym",
+            WorkItem::CopyRelocateSymbol(_) => "copy",
+            WorkItem::LoadSection(_) => "sec",
+            WorkItem::ExportDynamic(_) => "exp",
+        }
+    }
 }
 
 #[derive(Copy, Clone, Debug)]
@@ -1968,6 +1982,12 @@ impl<'data, P: Platform> GroupActivationInputs<'data, P> {
             group_index,
         } = self;
 
+        #[cfg(wild_verif)]
+        {
+            crate::verif::yield_point(1);
+            crate::verif_ev!("ActBegin", "\"g\":{group_index}");
+        }
+
         let files = resolved
             .files
             .into_iter()
@@ -1993,8 +2013,20 @@ impl<'data, P: Platform> GroupActivationInputs<'data, P> {
             should_delay_processing |= matches!(file, FileLayoutState::SyntheticSymbols(_));
 
             if let Err(error) = r {
+                #[cfg(wild_verif)]
+                crate::verif_ev!("Err");
                 resources.errors.lock().unwrap().push(error);
             }
+        }
+
+        #[cfg(wild_verif)]
+        {
+            crate::verif_ev!(
+                "ActEnd",
+                "\"g\":{group_index},\"delayed\":{should_delay_processing},\"local\":{}",
+                group.queue.local_work.len()
+            );
+            crate::verif::yield_point(2);
         }
 
         if should_delay_processing {
@@ -2008,8 +2040,16 @@ impl<'data, P: Platform> GroupActivationInputs<'data, P> {
             .fetch_sub(1, atomic::Ordering::Relaxed)
             - 1;
 
+        #[cfg(wild_verif)]
+        {
+            crate::verif_ev!("ActDec", "\"g\":{group_index},\"remaining\":{remaining}");
+            crate::verif::yield_point(3);
+        }
+
         if remaining == 0 {
             while let Some(group) = resources.delay_processing.pop() {
+                #[cfg(wild_verif)]
+                crate::verif_ev!("DelayPop", "\"by\":{group_index},\"g\":{}", group.queue.index);
                 group.do_pending_work::<A>(resources, scope);
             }
         }
@@ -2054,9 +2094,30 @@ fn find_required_sections<'data, A: Arch>(
     };
     let resources_ref = &resources;
 
+    #[cfg(wild_verif)]
+    crate::verif_ev!("ScopeBegin", "\"groups\":{num_groups}");
+
     rayon::in_place_scope(|scope| {
         queue_initial_group_processing::<A>(groups_in, symbol_db, resources_ref, scope);
     });
+
+    #[cfg(wild_verif)]
+    if crate::verif::tracing() {
+        let slots: Vec<String> = resources
+            .worker_slots
+            .iter()
+            .map(|s| {
+                let s = s.lock().unwrap();
+                format!("[{},{}]", s.work.len(), s.worker.is_some())
+            })
+            .collect();
+        crate::verif_ev!(
+            "ScopeEnd",
+            "\"groups\":{num_groups},\"errors\":{},\"slots\":[{}]",
+            resources.errors.lock().unwrap().len(),
+            slots.join(",")
+        );
+    }
 
     let mut errors: Vec<Error> = take(resources.errors.lock().unwrap().as_mut());
     // TODO: Figure out good way to report more than one error.
@@ -2138,6 +2199,14 @@ impl<'data, P: Platform> GroupState<'data, P> {
     ) {
         loop {
             while let Some(work_item) = self.queue.local_work.pop() {
+                #[cfg(wild_verif)]
+                crate::verif_ev!(
+                    "Item",
+                    "\"g\":{},\"kind\":\"{}\",\"local\":{}",
+                    self.queue.index,
+                    work_item.verif_kind(),
+                    self.queue.local_work.len()
+                );
                 let file_id = work_item.file_id(resources.symbol_db);
                 let file = &mut self.files[file_id.file()];
                 if let Err(error) = file.do_work::<A>(
@@ -2148,15 +2217,28 @@ impl<'data, P: Platform> GroupState<'data, P> {
                     scope,
                 ) {
                     resources.report_error(error);
+                    #[cfg(wild_verif)]
+                    crate::verif_ev!("Fail", "\"g\":{}", self.queue.index);
                     return;
                 }
             }
+            #[cfg(wild_verif)]
+            crate::verif::yield_point(4);
             {
                 let mut slot = resources.worker_slots[self.queue.index].lock().unwrap();
                 if slot.work.is_empty() {
+                    #[cfg(wild_verif)]
+                    crate::verif_ev!("SlotPark", "\"g\":{}", self.queue.index);
                     slot.worker = Some(self);
                     return;
                 }
+                #[cfg(wild_verif)]
+                crate::verif_ev!(
+                    "SlotSwap",
+                    "\"g\":{},\"n\":{}",
+                    self.queue.index,
+                    slot.work.len()
+                );
                 swap(&mut slot.work, &mut self.queue.local_work);
             };
         }
@@ -2260,6 +2342,13 @@ impl LocalWorkQueue {
         scope: &Scope<'scope>,
     ) {
         if file_id.group() == self.index {
+            #[cfg(wild_verif)]
+            crate::verif_ev!(
+                "SendLocal",
+                "\"g\":{},\"kind\":\"{}\"",
+                self.index,
+                work.verif_kind()
+            );
             self.local_work.push(work);
         } else {
             resources.send_work::<A>(file_id, work, resources, scope);
@@ -2309,6 +2398,8 @@ impl LocalWorkQueue {
 
 impl<'data, P: Platform> GraphResources<'data, '_, P> {
     pub(crate) fn report_error(&self, error: Error) {
+        #[cfg(wild_verif)]
+        crate::verif_ev!("Err");
         self.errors.lock().unwrap().push(error);
     }
 
@@ -2322,15 +2413,34 @@ impl<'data, P: Platform> GraphResources<'data, '_, P> {
         resources: &'scope GraphResources<'data, '_, P>,
         scope: &Scope<'scope>,
     ) {
+        #[cfg(wild_verif)]
+        crate::verif::yield_point(5);
+        #[cfg(wild_verif)]
+        let verif_kind = work.verif_kind();
         let worker;
         {
             let mut slot = self.worker_slots[file_id.group()].lock().unwrap();
             worker = slot.worker.take();
             slot.work.push(work);
+            #[cfg(wild_verif)]
+            crate::verif_ev!(
+                "Send",
+                "\"to\":{},\"kind\":\"{verif_kind}\",\"took\":{},\"n\":{}",
+                file_id.group(),
+                worker.is_some(),
+                slot.work.len()
+            );
         };
         if let Some(worker) = worker {
+            #[cfg(wild_verif)]
+            crate::verif::yield_point(6);
             scope.spawn(|scope| {
                 verbose_timing_phase!("Work with object");
+                #[cfg(wild_verif)]
+                {
+                    crate::verif::yield_point(7);
+                    crate::verif_ev!("TaskStart", "\"g\":{}", worker.queue.index);
+                }
                 worker.do_pending_work::<A>(resources, scope);
             });
         }
@@ -3647,6 +3757,8 @@ impl<'data, P: Platform> ObjectLayoutState<'data, P> {
                 SectionSlot::MustLoad(..)
                 | SectionSlot::UnloadedDebugInfo
                 | SectionSlot::MergeStrings(_) => {
+                    #[cfg(wild_verif)]
+                    crate::verif_ev!("SendLocal", "\"g\":{},\"kind\":\"sec\"", queue.index);
                     queue
                         .local_work
                         .push(WorkItem::LoadSection(SectionLoadRequest::new(
@@ -3656,6 +3768,8 @@ impl<'data, P: Platform> ObjectLayoutState<'data, P> {
                 }
                 SectionSlot::Unloaded(sec) => {
                     if no_gc {
+                        #[cfg(wild_verif)]
+                        crate::verif_ev!("SendLocal", "\"g\":{},\"kind\":\"sec\"", queue.index);
                         queue
                             .local_work
                             .push(WorkItem::LoadSection(SectionLoadRequest::new(
